@@ -298,6 +298,8 @@ RULES = [
 
 from . import shared
 RULES = RULES + shared.bundle('C16', ['carry', 'gate', 'restart', 'driver', 'values', 'stride', 'norm'], ['modelinfo', 'core', 'generate'])
+from .. import refs as _refs
+RULES = RULES + [_refs.ref_rule('C16')]
 
 
 def run(tier="quick", replay=None):
